@@ -76,6 +76,8 @@ struct Script {
     prep_id: Vec<u8>,
     pages: Vec<Vec<i32>>,
     states: Vec<Vec<u8>>,
+    /// number of pages handed out so far = the page the pager's cursor is at
+    served: usize,
     faults: Vec<VecDeque<String>>,
     frames: Vec<Value>,
     prepares: u64,
@@ -104,18 +106,44 @@ impl Script {
 
     /// Answers one QUERY / EXECUTE of the scenario's statement and records the frame.
     fn serve(&mut self, req: &Request) -> Action {
-        let page: i64 = match &req.paging_state {
-            None => 0,
-            Some(ps) => self.states.iter().take(self.pages.len().saturating_sub(1)).position(|s| s == ps).map(|i| i as i64 + 1).unwrap_or(-1),
+        // A request is for page p iff it carries the state returned with page p-1 (none for page 0). Paging states
+        // are opaque and need not differ between pages: among the candidates the page the cursor is at (the number
+        // of pages served so far) wins, so that a server returning the same bytes twice is scripted faithfully.
+        let page: i64 = {
+            let npages = self.pages.len();
+            let cands: Vec<usize> = (0..npages)
+                .filter(|p| match (&req.paging_state, *p) {
+                    (None, 0) => true,
+                    (Some(ps), p) if p >= 1 => self.states.get(p - 1) == Some(ps),
+                    _ => false,
+                })
+                .collect();
+            if cands.contains(&self.served) { self.served as i64 } else { cands.first().map(|p| *p as i64).unwrap_or(-1) }
         };
         let (reply, action) = if page < 0 {
             ("error:0x2200".to_string(), error_reply(0x2200, "unknown paging state", vec![]))
         } else {
             let p = page as usize;
             match self.faults.get_mut(p).and_then(|q| q.pop_front()) {
-                None => ("rows".to_string(), Action::Reply(self.rows_reply(p))),
+                None => {
+                    if p == self.served {
+                        self.served += 1;
+                    }
+                    ("rows".to_string(), Action::Reply(self.rows_reply(p)))
+                }
                 Some(f) => match f.as_str() {
-                    "delay" => ("delayed_rows".to_string(), Action::DelayMs(150, Box::new(Action::Reply(self.rows_reply(p))))),
+                    "delay" => {
+                        if p == self.served {
+                            self.served += 1;
+                        }
+                        ("delayed_rows".to_string(), Action::DelayMs(150, Box::new(Action::Reply(self.rows_reply(p)))))
+                    }
+                    // the node has forgotten the prepared statement: ERROR Unprepared naming its id
+                    "unprepared" => {
+                        let mut extra = vec![(self.prep_id.len() >> 8) as u8, self.prep_id.len() as u8];
+                        extra.extend_from_slice(&self.prep_id);
+                        ("error:0x2500".to_string(), error_reply(0x2500, "scripted unprepared", extra))
+                    }
                     "drop" => ("drop".to_string(), Action::Reset),
                     other => {
                         let (code, extra): (i32, Vec<u8>) = match other {
@@ -278,7 +306,7 @@ fn parse_scenario(sc: &Value) -> Result<(i64, bool, i32, Script, String, usize),
     }
     let k = sc["consumer"]["n"].as_u64().unwrap_or(0) as usize;
     let text = format!("SELECT v FROM ks.t WHERE pk = {id}");
-    let script = Script { prep_id: stable_id(text.as_bytes()), text, pages, states, faults: faults.into_iter().map(VecDeque::from).collect(), frames: vec![], prepares: 0 };
+    let script = Script { prep_id: stable_id(text.as_bytes()), text, pages, states, faults: faults.into_iter().map(VecDeque::from).collect(), frames: vec![], prepares: 0, served: 0 };
     Ok((id, prepared, page_size, script, mode, k))
 }
 
